@@ -7,7 +7,7 @@ import (
 )
 
 func check(t *testing.T, r Result, mode string) {
-	if r.Sum != 55+7+6+200 {
+	if r.Sum != 55+7+6+200+5 {
 		t.Fatalf("%s: Sum=%d", mode, r.Sum)
 	}
 	if r.Labeled != 5 {
